@@ -3,7 +3,7 @@
    scalars; the events (flags, likelihood, prediction closure, offset) are built
    by the OCaml driver.  ExtrOcamlBasic only. *)
 Require Import ZArith List.
-Require Import BFL.Ops BFL.C07_Model BFL.C06_Model.
+Require Import BFL.Ops BFL.C07_Model BFL.C06_Model BFL.C13_Model BFL.C06_Cmd.
 Require Import Extraction ExtrOcamlBasic.
 Import ListNotations.
 
@@ -13,6 +13,13 @@ Definition c06_trace (S : SOps) (Nf : nat) (st : @sis_state S (list (T S)) nat) 
 Definition c06_trace_full (S : SOps) (Nf : nat) (st : @sis_state S (list (T S)) nat) (evs : list (@event S (list (T S))))
   : list (@sset S (list (T S)) nat * bool * @sis_state S (list (T S)) nat) := sis_trace_full Nf st evs.
 
+(* the command-level entry point the driver runs: raw skip commands, steps and resets (C06_Cmd.v); the flags every step
+   runs under are computed here, by the dispatch of C13_Model, from the commands *)
+Definition c06_cmd_trace_full (S : SOps) (Nf : nat) (cs : @cstate S (list (T S)) nat) (its : list (@item S (list (T S)) nat))
+  : list (option (list res * @sset S (list (T S)) nat * bool) * @cstate S (list (T S)) nat) := cmd_trace_full Nf cs its.
+(* the flags of a freshly constructed filter, with or without exogenous model *)
+Definition c06_init_flags (have : bool) : flags := init have.
+
 (* the quantities the resampling decision is taken on, per state *)
 Definition c06_neff (S : SOps) (lw : list (T S)) : T S := neff S lw.
 Definition c06_lse (S : SOps) (lw : list (T S)) : T S := lse S lw.
@@ -21,4 +28,4 @@ Definition c06_parents (S : SOps) (lw : list (T S)) (u1 : T S) : list nat := res
 Definition c06_csw (S : SOps) (lw : list (T S)) : list (T S) := csw S lw.
 Definition c06_comb (S : SOps) (N : nat) (u1 : T S) : list (T S) := map (comb S N u1) (seq 0 N).
 
-Extraction "C06_model.ml" c06_trace c06_trace_full c06_neff c06_lse c06_parents c06_csw c06_comb.
+Extraction "C06_model.ml" c06_trace c06_trace_full c06_cmd_trace_full c06_init_flags c06_neff c06_lse c06_parents c06_csw c06_comb.
